@@ -292,7 +292,7 @@ func propC13Bucket(t veriflib.TB, outer *testing.T, c c13Case) {
 	var viol string
 	var nt bool
 	var classes, oplog []string
-	synctest.Test(outer, func(st *testing.T) {
+	veriflib.Bubble(outer, "C13", "C13/bucket", c, func(st *testing.T) {
 		viol, nt, classes = c13RunBucket(c, &oplog)
 	})
 	if viol != "" {
@@ -491,7 +491,7 @@ func propC13Manager(t veriflib.TB, outer *testing.T, c c13Case) {
 	var viol string
 	var nt bool
 	var classes, oplog []string
-	synctest.Test(outer, func(st *testing.T) {
+	veriflib.Bubble(outer, "C13", "C13/manager", c, func(st *testing.T) {
 		viol, nt, classes = c13RunManager(c, &oplog)
 	})
 	if viol != "" {
